@@ -1,5 +1,10 @@
 /* pthread model: see pthread_model.h for the contract.  CBMC-only (thread harnesses + sequential
- * effect / return-code queries). */
+ * effect / return-code queries).
+ *
+ * Encoding rules learnt the hard way (CBMC 6.11 threads): state = individual SCALARS (vm_tstate_0, ...;
+ * a write to one element of a shared array makes CBMC read every element), the code is unrolled over
+ * thread/object numbers with X-macros, nothing is stored inside the glibc unions, multi-variable assertions
+ * sit inside the acting thread's atomic section. */
 #include "pthread_model.h"
 
 #ifndef VERIF_NATIVE
@@ -9,14 +14,25 @@ __CPROVER_thread_local int vm_spur_left = VM_SPURIOUS;
 __thread int vm_self, vm_spur_left = VM_SPURIOUS;
 #endif
 
-int vm_tstate[VM_NTHR], vm_twcv[VM_NTHR], vm_twmtx[VM_NTHR], vm_twoken[VM_NTHR];
-int vm_mtx_owner[VM_NMTX];
-int vm_rw_writer[VM_NRW], vm_rw_readers[VM_NRW], vm_rw_rheld[VM_NRW][VM_NTHR];
+#define DEF_T(t) int vm_tstate_##t, vm_twcv_##t, vm_twmtx_##t, vm_twoken_##t;
+#define DEF_M(k) int vm_mtx_owner_##k; pthread_mutex_t *vm_mtx_addr_##k;
+#define DEF_C(k) pthread_cond_t *vm_cv_addr_##k;
+#define DEF_R(k) int vm_rw_writer_##k, vm_rw_readers_##k; pthread_rwlock_t *vm_rw_addr_##k;
+#define DEF_RT(k, t) int vm_rw_rheld_##k##_##t;
+VM_FOR_T(DEF_T)
+VM_FOR_M(DEF_M)
+VM_FOR_C(DEF_C)
+VM_FOR_R(DEF_R)
+VM_FOR_RT(DEF_RT)
 int vm_nmtx, vm_ncv, vm_nrw;
-pthread_mutex_t  *vm_mtx_addr[VM_NMTX];
-pthread_cond_t   *vm_cv_addr[VM_NCV];
-pthread_rwlock_t *vm_rw_addr[VM_NRW];
+
+#ifdef VM_PT_GHOST   /* call records for the sequential effect queries (shared writes: not in thread harnesses) */
 int vm_last_wait_cv = -1, vm_last_wait_mtx = -1, vm_nsignal, vm_nbroadcast, vm_nwoken_last;
+int vm_nsig_cv[4], vm_nbc_cv[4];      /* signal / broadcast calls per condition index */
+#define VM_GHOST(stmt) stmt
+#else
+#define VM_GHOST(stmt)
+#endif
 #ifdef VM_PT_FAULTS
 int vm_fault_armed, vm_fault_code, vm_fault_hits;
 #define VM_FAULT() if (vm_fault_armed) { vm_fault_armed = 0; vm_fault_hits++; return vm_fault_code; }
@@ -24,45 +40,77 @@ int vm_fault_armed, vm_fault_code, vm_fault_hits;
 #define VM_FAULT()
 #endif
 
-/* unrolling helpers: every array access below has a literal index */
-#define FOR_T(X) X(0) X(1) X(2) X(3)
-#define FOR_M(X) X(0) X(1) X(2)
-#define FOR_C(X) X(0) X(1) X(2)
-#define FOR_R(X) X(0) X(1)
+#if VM_NTHR == 1
+/* single-threaded (sequential) query: nobody can wake a blocked caller; the deadlock check of the blocking step has
+ * reported it; the path ends here (an assume inside an atomic section confuses sequential symex) */
+#define VM_SEQ_STOP() VASSUME(0);
+#else
+#define VM_SEQ_STOP()
+#endif
 
 int vm_mtx_index(const pthread_mutex_t *m) {
-#define X(k) if (k < vm_nmtx && m == vm_mtx_addr[k]) return k;
-  FOR_M(X)
+#define X(k) if (m == vm_mtx_addr_##k) return k;
+  VM_FOR_M(X)
 #undef X
   return -1;
 }
 int vm_cv_index(const pthread_cond_t *c) {
-#define X(k) if (k < vm_ncv && c == vm_cv_addr[k]) return k;
-  FOR_C(X)
+#define X(k) if (c == vm_cv_addr_##k) return k;
+  VM_FOR_C(X)
 #undef X
   return -1;
 }
 int vm_rw_index(const pthread_rwlock_t *r) {
-#define X(k) if (k < vm_nrw && r == vm_rw_addr[k]) return k;
-  FOR_R(X)
+#define X(k) if (r == vm_rw_addr_##k) return k;
+  VM_FOR_R(X)
 #undef X
   return -1;
 }
 
 /* ---- thread bookkeeping ------------------------------------------------------------------- */
 void vm_thread_register(int t) {
-#define X(k) if (t == k) vm_tstate[k] = VM_T_RUNNING;
-  FOR_T(X)
+#define X(k) if (t == k) vm_tstate_##k = VM_T_RUNNING;
+  VM_FOR_T(X)
 #undef X
 }
 void vm_thread_begin(int t) { vm_self = t; vm_spur_left = VM_SPURIOUS; }
 
+void vm_set_waiting(int t, int ci, int mi) {
+#define X(k) if (t == k) { vm_tstate_##k = VM_T_WAITING; vm_twcv_##k = ci; vm_twmtx_##k = mi; vm_twoken_##k = 0; }
+  VM_FOR_T(X)
+#undef X
+}
+int vm_is_woken(int t) {
+#define X(k) if (t == k) return vm_twoken_##k;
+  VM_FOR_T(X)
+#undef X
+  return 0;
+}
+int vm_mutex_owner(int mi) {
+#define X(k) if (mi == k) return vm_mtx_owner_##k;
+  VM_FOR_M(X)
+#undef X
+  return -1;
+}
+int vm_rwlock_writer(int ri) {
+#define X(k) if (ri == k) return vm_rw_writer_##k;
+  VM_FOR_R(X)
+#undef X
+  return -1;
+}
+int vm_rwlock_readers(int ri) {
+#define X(k) if (ri == k) return vm_rw_readers_##k;
+  VM_FOR_R(X)
+#undef X
+  return -1;
+}
+
 /* to be called inside the atomic section of the thread that blocks or finishes */
 static void vm_deadlock_check(void) {
-  int unfinished = 0, runnable = 0;
-#define X(t) if (vm_tstate[t] == VM_T_RUNNING) runnable = 1; \
-             if (vm_tstate[t] == VM_T_WAITING) { unfinished = 1; if (vm_twoken[t]) runnable = 1; }
-  FOR_T(X)
+  _Bool unfinished = 0, runnable = 0;
+#define X(t) { int s = vm_tstate_##t; if (s == VM_T_RUNNING) runnable = 1; \
+               if (s == VM_T_WAITING) { unfinished = 1; if (vm_twoken_##t) runnable = 1; } }
+  VM_FOR_T(X)
 #undef X
   VASSERT(!(unfinished && !runnable),
           "no deadlock / lost wake-up: when a thread blocks or finishes, some unfinished thread is runnable or has been signalled");
@@ -70,23 +118,25 @@ static void vm_deadlock_check(void) {
 
 int vm_all_finished(void) {
   int all = 1;
-#define X(t) if (vm_tstate[t] == VM_T_RUNNING || vm_tstate[t] == VM_T_WAITING) all = 0;
-  FOR_T(X)
+#define X(t) { int s = vm_tstate_##t; if (s == VM_T_RUNNING || s == VM_T_WAITING) all = 0; }
+  VM_FOR_T(X)
 #undef X
   return all;
 }
 
 void vm_thread_finish(void) {
   VATOMIC_BEGIN();
-#define X(k) VASSERT(vm_mtx_owner[k] != vm_self + 1, "thread finishes without owning a mutex");
-  FOR_M(X)
+#define X(k) VASSERT(vm_mtx_owner_##k != vm_self + 1, "thread finishes without owning a mutex");
+  VM_FOR_M(X)
 #undef X
-#define X(k) VASSERT(vm_rw_writer[k] != vm_self + 1, "thread finishes without holding a write lock");
-  FOR_R(X)
+#define X(k) VASSERT(vm_rw_writer_##k != vm_self + 1, "thread finishes without holding a write lock");
+  VM_FOR_R(X)
 #undef X
-#define X(t) if (vm_self == t) { VASSERT(vm_rw_rheld[0][t] == 0 && vm_rw_rheld[1][t] == 0, "thread finishes without holding a read lock"); \
-                                 vm_tstate[t] = VM_T_FINISHED; }
-  FOR_T(X)
+#define X(k, t) if (vm_self == t) VASSERT(vm_rw_rheld_##k##_##t == 0, "thread finishes without holding a read lock");
+  VM_FOR_RT(X)
+#undef X
+#define X(t) if (vm_self == t) vm_tstate_##t = VM_T_FINISHED;
+  VM_FOR_T(X)
 #undef X
   vm_deadlock_check();
   VATOMIC_END();
@@ -97,26 +147,31 @@ int vm_pthread_mutex_init(pthread_mutex_t *m, const pthread_mutexattr_t *a) {
   (void) a;
   VM_FAULT()
   VASSERT(vm_nmtx < VM_NMTX, "model capacity: mutexes");
-#define X(k) if (vm_nmtx == k) { vm_mtx_addr[k] = m; vm_mtx_owner[k] = 0; }
-  FOR_M(X)
+#define X(k) if (vm_nmtx == k) { vm_mtx_addr_##k = m; vm_mtx_owner_##k = 0; }
+  VM_FOR_M(X)
 #undef X
   vm_nmtx++;
   return 0;
 }
 int vm_pthread_mutex_destroy(pthread_mutex_t *m) {
   VM_FAULT()
-  int k = vm_mtx_index(m);
-  VASSERT(k >= 0, "mutex_destroy: object was initialised");
+  VASSERT(vm_mtx_index(m) >= 0, "mutex_destroy: object was initialised");
   return 0;
 }
 int vm_pthread_mutex_lock(pthread_mutex_t *m) {
   VM_FAULT()
   int i = vm_mtx_index(m);
   VASSERT(i >= 0, "mutex_lock: object is an initialised mutex");
+#if VM_NTHR == 1
+  { int o1 = vm_mutex_owner(i);   /* sequential query: a held mutex is never released by anybody else */
+    VASSERT(o1 == 0, "mutex_lock would block for ever: the mutex is held and there is no other thread");
+    VASSUME(o1 == 0); }
+#endif
   VATOMIC_BEGIN();
-#define X(k) if (i == k) { VASSERT(vm_mtx_owner[k] != vm_self + 1, "mutex_lock: caller does not own it already (self-deadlock)"); \
-                           VASSUME(vm_mtx_owner[k] == 0); vm_mtx_owner[k] = vm_self + 1; }
-  FOR_M(X)
+#define X(k) if (i == k) { int o = vm_mtx_owner_##k;   /* one read event */ \
+                           VASSERT(o != vm_self + 1, "mutex_lock: caller does not own it already (self-deadlock)"); \
+                           VASSUME(o == 0); vm_mtx_owner_##k = vm_self + 1; }
+  VM_FOR_M(X)
 #undef X
   VATOMIC_END();
   return 0;
@@ -126,8 +181,8 @@ int vm_pthread_mutex_trylock(pthread_mutex_t *m) {
   int i = vm_mtx_index(m), r = 0;
   VASSERT(i >= 0, "mutex_trylock: object is an initialised mutex");
   VATOMIC_BEGIN();
-#define X(k) if (i == k) { if (vm_mtx_owner[k] == 0) vm_mtx_owner[k] = vm_self + 1; else r = EBUSY; }
-  FOR_M(X)
+#define X(k) if (i == k) { if (vm_mtx_owner_##k == 0) vm_mtx_owner_##k = vm_self + 1; else r = EBUSY; }
+  VM_FOR_M(X)
 #undef X
   VATOMIC_END();
   return r;
@@ -137,8 +192,8 @@ int vm_pthread_mutex_unlock(pthread_mutex_t *m) {
   int i = vm_mtx_index(m);
   VASSERT(i >= 0, "mutex_unlock: object is an initialised mutex");
   VATOMIC_BEGIN();
-#define X(k) if (i == k) { VASSERT(vm_mtx_owner[k] == vm_self + 1, "mutex_unlock: caller owns the mutex"); vm_mtx_owner[k] = 0; }
-  FOR_M(X)
+#define X(k) if (i == k) { VASSERT(vm_mtx_owner_##k == vm_self + 1, "mutex_unlock: caller owns the mutex"); vm_mtx_owner_##k = 0; }
+  VM_FOR_M(X)
 #undef X
   VATOMIC_END();
   return 0;
@@ -149,8 +204,8 @@ int vm_pthread_cond_init(pthread_cond_t *c, const pthread_condattr_t *a) {
   (void) a;
   VM_FAULT()
   VASSERT(vm_ncv < VM_NCV, "model capacity: condition variables");
-#define X(k) if (vm_ncv == k) vm_cv_addr[k] = c;
-  FOR_C(X)
+#define X(k) if (vm_ncv == k) vm_cv_addr_##k = c;
+  VM_FOR_C(X)
 #undef X
   vm_ncv++;
   return 0;
@@ -166,17 +221,26 @@ int vm_pthread_cond_wait(pthread_cond_t *c, pthread_mutex_t *m) {
   int ci = vm_cv_index(c), mi = vm_mtx_index(m);
   VASSERT(ci >= 0, "cond_wait: first argument is an initialised condition variable");
   VASSERT(mi >= 0, "cond_wait: second argument is an initialised mutex");
+#ifdef VM_CW_HOOK
+  /* inductive sequential queries (C02 harness 2): the wait is replaced by the harness hook, which checks the state the
+   * caller blocks in and havocs the protected data to any state other threads may leave behind; the caller continues as
+   * if woken, with the mutex re-acquired */
+  VASSERT(vm_mutex_owner(mi) == vm_self + 1, "cond_wait: called with the mutex owned by the caller");
+  VM_CW_HOOK(ci, mi);
+  return 0;
+#endif
   /* step 1 (atomic): register as waiter, release the mutex; deadlock check of the state entered */
   VATOMIC_BEGIN();
-  vm_last_wait_cv = ci; vm_last_wait_mtx = mi;
-#define X(k) if (mi == k) { VASSERT(vm_mtx_owner[k] == vm_self + 1, "cond_wait: called with the mutex owned by the caller"); vm_mtx_owner[k] = 0; }
-  FOR_M(X)
+  VM_GHOST(vm_last_wait_cv = ci; vm_last_wait_mtx = mi;)
+#define X(k) if (mi == k) { VASSERT(vm_mtx_owner_##k == vm_self + 1, "cond_wait: called with the mutex owned by the caller"); vm_mtx_owner_##k = 0; }
+  VM_FOR_M(X)
 #undef X
-#define X(t) if (vm_self == t) { vm_tstate[t] = VM_T_WAITING; vm_twcv[t] = ci; vm_twmtx[t] = mi; vm_twoken[t] = 0; }
-  FOR_T(X)
+#define X(t) if (vm_self == t) { vm_tstate_##t = VM_T_WAITING; vm_twcv_##t = ci; vm_twmtx_##t = mi; vm_twoken_##t = 0; }
+  VM_FOR_T(X)
 #undef X
   vm_deadlock_check();
   VATOMIC_END();
+  VM_SEQ_STOP()
   /* step 2 (atomic): woken by signal/broadcast, or spuriously (bounded); re-acquire the mutex */
   VATOMIC_BEGIN();
   {
@@ -184,18 +248,18 @@ int vm_pthread_cond_wait(pthread_cond_t *c, pthread_mutex_t *m) {
 #if VM_SPURIOUS > 0
     if (vm_spur_left > 0 && nondet_bool()) { spur = 1; vm_spur_left--; }
 #endif
-#define X(t) if (vm_self == t) { VASSUME(vm_twoken[t] || spur); vm_twoken[t] = 0; vm_tstate[t] = VM_T_RUNNING; }
-    FOR_T(X)
+#define X(t) if (vm_self == t) { VASSUME(vm_twoken_##t || spur); vm_twoken_##t = 0; vm_tstate_##t = VM_T_RUNNING; }
+    VM_FOR_T(X)
 #undef X
-#define X(k) if (mi == k) { VASSUME(vm_mtx_owner[k] == 0); vm_mtx_owner[k] = vm_self + 1; }
-    FOR_M(X)
+#define X(k) if (mi == k) { VASSUME(vm_mtx_owner_##k == 0); vm_mtx_owner_##k = vm_self + 1; }
+    VM_FOR_M(X)
 #undef X
   }
   VATOMIC_END();
   return 0;
 }
 
-#define VM_IS_WAITER(t, ci) (vm_tstate[t] == VM_T_WAITING && vm_twcv[t] == (ci) && !vm_twoken[t])
+#define VM_IS_WAITER(t, ci) (vm_tstate_##t == VM_T_WAITING && vm_twcv_##t == (ci) && !vm_twoken_##t)
 
 int vm_pthread_cond_signal(pthread_cond_t *c) {
   VM_FAULT()
@@ -203,16 +267,18 @@ int vm_pthread_cond_signal(pthread_cond_t *c) {
   VASSERT(ci >= 0, "cond_signal: argument is an initialised condition variable");
   VATOMIC_BEGIN();
   {
-    _Bool c0 = VM_IS_WAITER(0, ci), c1 = VM_IS_WAITER(1, ci), c2 = VM_IS_WAITER(2, ci), c3 = VM_IS_WAITER(3, ci);
-    vm_nsignal++; vm_nwoken_last = 0;
-    if (c0 || c1 || c2 || c3) {
-      int pick = nondet_int();   /* which waiter: any */
-      VASSUME((pick == 0 && c0) || (pick == 1 && c1) || (pick == 2 && c2) || (pick == 3 && c3));
-#define X(t) if (pick == t) vm_twoken[t] = 1;
-      FOR_T(X)
+    /* exactly one waiter of THIS condition object, any of them */
+    _Bool any = 0, hit = 0;
+    int pick = nondet_int();
+    VM_GHOST(vm_nsignal++; vm_nwoken_last = 0; if (ci >= 0 && ci < 4) vm_nsig_cv[ci]++;)
+#define X(t) _Bool w##t = VM_IS_WAITER(t, ci); if (w##t) any = 1;     /* each state scalar read once */
+    VM_FOR_T(X)
 #undef X
-      vm_nwoken_last = 1;
-    }
+#define X(t) if (pick == t && w##t) { vm_twoken_##t = 1; hit = 1; }
+    VM_FOR_T(X)
+#undef X
+    VASSUME(hit || !any);
+    VM_GHOST(vm_nwoken_last = hit;)
   }
   VATOMIC_END();
   return 0;
@@ -222,9 +288,9 @@ int vm_pthread_cond_broadcast(pthread_cond_t *c) {
   int ci = vm_cv_index(c);
   VASSERT(ci >= 0, "cond_broadcast: argument is an initialised condition variable");
   VATOMIC_BEGIN();
-  vm_nbroadcast++; vm_nwoken_last = 0;
-#define X(t) if (VM_IS_WAITER(t, ci)) { vm_twoken[t] = 1; vm_nwoken_last++; }
-  FOR_T(X)
+  VM_GHOST(vm_nbroadcast++; vm_nwoken_last = 0; if (ci >= 0 && ci < 4) vm_nbc_cv[ci]++;)
+#define X(t) if (VM_IS_WAITER(t, ci)) { vm_twoken_##t = 1; VM_GHOST(vm_nwoken_last++;) }
+  VM_FOR_T(X)
 #undef X
   VATOMIC_END();
   return 0;
@@ -235,8 +301,8 @@ int vm_pthread_rwlock_init(pthread_rwlock_t *r, const pthread_rwlockattr_t *a) {
   (void) a;
   VM_FAULT()
   VASSERT(vm_nrw < VM_NRW, "model capacity: rwlocks");
-#define X(k) if (vm_nrw == k) vm_rw_addr[k] = r;
-  FOR_R(X)
+#define X(k) if (vm_nrw == k) vm_rw_addr_##k = r;
+  VM_FOR_R(X)
 #undef X
   vm_nrw++;
   return 0;
@@ -246,27 +312,63 @@ int vm_pthread_rwlock_destroy(pthread_rwlock_t *r) {
   VASSERT(vm_rw_index(r) >= 0, "rwlock_destroy: object was initialised");
   return 0;
 }
-#define VM_RHELD_INC(k) { if (vm_self == 0) vm_rw_rheld[k][0]++; if (vm_self == 1) vm_rw_rheld[k][1]++; \
-                          if (vm_self == 2) vm_rw_rheld[k][2]++; if (vm_self == 3) vm_rw_rheld[k][3]++; }
+/* blocking rwlock calls: granted at once when grantable, otherwise the caller registers as blocked on the
+ * rwlock (state WAITING, pseudo condition VM_WAIT_RW+k; deadlock check of the state entered) and is granted in a
+ * second atomic step; every unlock marks the threads blocked on that rwlock as woken (they re-contend). */
+static void vm_block_on(int what) {
+#define X(t) if (vm_self == t) { vm_tstate_##t = VM_T_WAITING; vm_twcv_##t = what; vm_twoken_##t = 0; }
+  VM_FOR_T(X)
+#undef X
+  vm_deadlock_check();
+}
+static void vm_unblock(void) {
+#define X(t) if (vm_self == t) { vm_tstate_##t = VM_T_RUNNING; vm_twoken_##t = 0; }
+  VM_FOR_T(X)
+#undef X
+}
+static void vm_wake_blocked_on(int what) {
+#define X(t) if (vm_tstate_##t == VM_T_WAITING && vm_twcv_##t == what) vm_twoken_##t = 1;
+  VM_FOR_T(X)
+#undef X
+}
 int vm_pthread_rwlock_rdlock(pthread_rwlock_t *r) {
   VM_FAULT()
   int i = vm_rw_index(r);
+  _Bool done = 0;
   VASSERT(i >= 0, "rwlock_rdlock: object is an initialised rwlock");
   VATOMIC_BEGIN();
-#define X(k) if (i == k) { VASSERT(vm_rw_writer[k] != vm_self + 1, "rwlock_rdlock: caller is not the writer (self-deadlock)"); \
-                           VASSUME(vm_rw_writer[k] == 0); vm_rw_readers[k]++; VM_RHELD_INC(k) }
-  FOR_R(X)
+#define X(k) if (i == k) { int w = vm_rw_writer_##k; VASSERT(w != vm_self + 1, "rwlock_rdlock: caller is not the writer (self-deadlock)"); \
+                           if (w == 0) { vm_rw_readers_##k++; done = 1; } }
+  VM_FOR_R(X)
+#undef X
+  if (!done) vm_block_on(VM_WAIT_RW + i);
+  VATOMIC_END();
+  if (!done) {
+    VM_SEQ_STOP()
+    VATOMIC_BEGIN();
+#define X(k) if (i == k) { VASSUME(vm_rw_writer_##k == 0); vm_rw_readers_##k++; }
+    VM_FOR_R(X)
+#undef X
+    vm_unblock();
+    VATOMIC_END();
+  }
+  VATOMIC_BEGIN();
+#define X(k, t) if (i == k && vm_self == t) vm_rw_rheld_##k##_##t++;
+  VM_FOR_RT(X)
 #undef X
   VATOMIC_END();
   return 0;
 }
 int vm_pthread_rwlock_tryrdlock(pthread_rwlock_t *r) {
   VM_FAULT()
-  int i = vm_rw_index(r), rc = 0;
+  int i = vm_rw_index(r), rc = EBUSY;
   VASSERT(i >= 0, "rwlock_tryrdlock: object is an initialised rwlock");
   VATOMIC_BEGIN();
-#define X(k) if (i == k) { if (vm_rw_writer[k] == 0) { vm_rw_readers[k]++; VM_RHELD_INC(k) } else rc = EBUSY; }
-  FOR_R(X)
+#define X(k) if (i == k && vm_rw_writer_##k == 0) { vm_rw_readers_##k++; rc = 0; }
+  VM_FOR_R(X)
+#undef X
+#define X(k, t) if (rc == 0 && i == k && vm_self == t) vm_rw_rheld_##k##_##t++;
+  VM_FOR_RT(X)
 #undef X
   VATOMIC_END();
   return rc;
@@ -274,13 +376,24 @@ int vm_pthread_rwlock_tryrdlock(pthread_rwlock_t *r) {
 int vm_pthread_rwlock_wrlock(pthread_rwlock_t *r) {
   VM_FAULT()
   int i = vm_rw_index(r);
+  _Bool done = 0;
   VASSERT(i >= 0, "rwlock_wrlock: object is an initialised rwlock");
   VATOMIC_BEGIN();
-#define X(k) if (i == k) { VASSERT(vm_rw_writer[k] != vm_self + 1, "rwlock_wrlock: caller is not the writer already (self-deadlock)"); \
-                           VASSUME(vm_rw_writer[k] == 0 && vm_rw_readers[k] == 0); vm_rw_writer[k] = vm_self + 1; }
-  FOR_R(X)
+#define X(k) if (i == k) { int w = vm_rw_writer_##k; VASSERT(w != vm_self + 1, "rwlock_wrlock: caller is not the writer already (self-deadlock)"); \
+                           if (w == 0 && vm_rw_readers_##k == 0) { vm_rw_writer_##k = vm_self + 1; done = 1; } }
+  VM_FOR_R(X)
 #undef X
+  if (!done) vm_block_on(VM_WAIT_RW + i);
   VATOMIC_END();
+  if (!done) {
+    VM_SEQ_STOP()
+    VATOMIC_BEGIN();
+#define X(k) if (i == k) { VASSUME(vm_rw_writer_##k == 0 && vm_rw_readers_##k == 0); vm_rw_writer_##k = vm_self + 1; }
+    VM_FOR_R(X)
+#undef X
+    vm_unblock();
+    VATOMIC_END();
+  }
   return 0;
 }
 int vm_pthread_rwlock_trywrlock(pthread_rwlock_t *r) {
@@ -288,27 +401,49 @@ int vm_pthread_rwlock_trywrlock(pthread_rwlock_t *r) {
   int i = vm_rw_index(r), rc = 0;
   VASSERT(i >= 0, "rwlock_trywrlock: object is an initialised rwlock");
   VATOMIC_BEGIN();
-#define X(k) if (i == k) { if (vm_rw_writer[k] == 0 && vm_rw_readers[k] == 0) vm_rw_writer[k] = vm_self + 1; else rc = EBUSY; }
-  FOR_R(X)
+#define X(k) if (i == k) { if (vm_rw_writer_##k == 0 && vm_rw_readers_##k == 0) vm_rw_writer_##k = vm_self + 1; else rc = EBUSY; }
+  VM_FOR_R(X)
 #undef X
   VATOMIC_END();
   return rc;
 }
-#define VM_RHELD_DEC(k, ok) { \
-  if (vm_self == 0 && vm_rw_rheld[k][0] > 0) { vm_rw_rheld[k][0]--; ok = 1; } \
-  if (vm_self == 1 && vm_rw_rheld[k][1] > 0) { vm_rw_rheld[k][1]--; ok = 1; } \
-  if (vm_self == 2 && vm_rw_rheld[k][2] > 0) { vm_rw_rheld[k][2]--; ok = 1; } \
-  if (vm_self == 3 && vm_rw_rheld[k][3] > 0) { vm_rw_rheld[k][3]--; ok = 1; } }
 int vm_pthread_rwlock_unlock(pthread_rwlock_t *r) {
   VM_FAULT()
   int i = vm_rw_index(r);
+  _Bool ok = 0;
   VASSERT(i >= 0, "rwlock_unlock: object is an initialised rwlock");
   VATOMIC_BEGIN();
-#define X(k) if (i == k) { \
-    if (vm_rw_writer[k] == vm_self + 1) vm_rw_writer[k] = 0; \
-    else { _Bool ok = 0; VM_RHELD_DEC(k, ok) VASSERT(ok, "rwlock_unlock: caller holds the lock"); if (ok) vm_rw_readers[k]--; } }
-  FOR_R(X)
+#define X(k) if (i == k && vm_rw_writer_##k == vm_self + 1) { vm_rw_writer_##k = 0; ok = 1; }
+  VM_FOR_R(X)
 #undef X
+#define X(k, t) if (!ok && i == k && vm_self == t && vm_rw_rheld_##k##_##t > 0) { vm_rw_rheld_##k##_##t--; vm_rw_readers_##k--; ok = 1; }
+  VM_FOR_RT(X)
+#undef X
+  VASSERT(ok, "rwlock_unlock: caller holds the lock");
+  vm_wake_blocked_on(VM_WAIT_RW + i);
   VATOMIC_END();
   return 0;
+}
+
+/* ---- harness-level events (rendezvous between threads; blocked threads take part in the deadlock check) --- */
+int vm_ev_0, vm_ev_1;
+void vm_event_set(int ev) {
+  VATOMIC_BEGIN();
+  if (ev == 0) vm_ev_0 = 1; else vm_ev_1 = 1;
+  vm_wake_blocked_on(VM_WAIT_EV + ev);
+  VATOMIC_END();
+}
+void vm_event_wait(int ev) {
+  _Bool done;
+  VATOMIC_BEGIN();
+  done = (ev == 0) ? vm_ev_0 : vm_ev_1;
+  if (!done) vm_block_on(VM_WAIT_EV + ev);
+  VATOMIC_END();
+  if (!done) {
+    VM_SEQ_STOP()
+    VATOMIC_BEGIN();
+    VASSUME((ev == 0) ? vm_ev_0 : vm_ev_1);
+    vm_unblock();
+    VATOMIC_END();
+  }
 }
